@@ -39,6 +39,8 @@ def _check_on(c, case, stats: Stats) -> None:
         iu, co, pu = c.is_uri(s), c.compress(s), c.parse_uri(s, return_none=True)
         if not (iu == (co is not None) == (pu is not None)):
             raise Violation(f"is_uri({s!r})={iu}, compress={co!r}, parse_uri={pu!r} disagree about recognition")
+        if pu is not None and co != pu[0] + d + pu[1]:
+            raise Violation(f"compress({s!r}) = {co!r} but parse_uri gives {tuple(pu)!r}, i.e. {pu[0] + d + pu[1]!r}")
         if iu != (mu is not None):
             raise Violation(f"is_uri({s!r}) = {iu}, but registered-prefix scan says {mu is not None}")
         # --- CURIE side
